@@ -1,6 +1,9 @@
 import VermouthModel.C02
 import VermouthModel.C02_Hist
+import VermouthModel.C02_Call
+import VermouthModel.C02_Repo
 import Generated.C02Tables
+import Generated.C02RepoTables
 open Proto C02
 
 def atomOf (t : Tok) : Option Atom := do
@@ -21,6 +24,42 @@ def interOf (t : Tok) : Option Inter := do
 def namedOf {α} (f : Tok → Option α) (t : Tok) : Option (String × α) := do
   match ← t.list? with
   | [n, v] => pure (← n.str?, ← f v)
+  | _ => none
+
+def rawAtomOf (t : Tok) : Option RawAtom := do
+  match ← t.list? with
+  | [k, aid, ty, ri, rn, an, cg, ch, ms] =>
+    pure { key := ← k.int?, atomid := ← aid.optInt?, atype := ← ty.optStr?, resid := ← ri.optStr?,
+           resname := ← rn.optStr?, atomname := ← an.optStr?, cgnr := ← cg.optStr?, charge := ← ch.str?,
+           mass := ← ms.str? }
+  | _ => none
+
+def optTable (t : Tok) : Option (Option (List (String × List String))) :=
+  match t with
+  | Tok.none => some none
+  | t => do
+    let l ← (← t.list?).mapM (fun e => do
+      match ← e.list? with
+      | [n, v] => pure (← n.str?, ← strs? v)
+      | _ => none)
+    pure (some l)
+
+def callOf (args : List Tok) : Option Call := do
+  match args with
+  | [ma, mm, nr, hd, defs, atoms, inters, pa, poa, pm, pom] =>
+    pure { moltypeArg := ← ma.optStr?, moltypeMeta := ← mm.optStr?, nrexcl := ← nr.optStr?,
+           header := ← strs? hd,
+           defines := ← (← defs.list?).mapM (fun e => do
+             match ← e.list? with
+             | [n, v] => pure (← n.str?, ← v.str?)
+             | _ => none),
+           atoms := ← (← atoms.list?).mapM rawAtomOf,
+           inters := ← (← inters.list?).mapM (fun e => do
+             match ← e.list? with
+             | [n, v] => pure (← n.str?, ← (← v.list?).mapM interOf)
+             | _ => none),
+           preArg := ← optTable pa, postArg := ← optTable poa, preMeta := ← optTable pm,
+           postMeta := ← optTable pom }
   | _ => none
 
 def molOf (args : List Tok) : Option Mol := do
@@ -77,8 +116,13 @@ def handle (_ : Unit) (toks : List Tok) : Unit × String :=
   let r : Option String :=
     match toks with
     | Tok.str "write" :: args => do
-        let m ← molOf args
-        match write m with
+        -- optional 9th argument: the order in which the set of left-over sections was iterated
+        let m ← molOf (args.take 8)
+        let order ← match args.drop 8 with
+          | [] => pure (remainingNames m)
+          | [o] => strs? o
+          | _ => none
+        match writeOrd m order with
         | .error e => pure ("err " ++ encErr e)
         | .ok ls =>
           let text := render ls
@@ -86,8 +130,29 @@ def handle (_ : Unit) (toks : List Tok) : Unit × String :=
           let co := charOk m
           let rtTok := isOkEq (parseTokens arityTable (ls.map lineTokens)) (canon m)
           let rtChr := isOkEq (parse arityTable text) (canon m)
+          let perm := order.isPerm (remainingNames m)
           pure ("ok " ++ encBool wf ++ " " ++ encBool co ++ " " ++ encBool (!wf || rtTok) ++ " "
-                ++ encBool (!(wf && co) || rtChr) ++ " " ++ encStr text)
+                ++ encBool (!(wf && co) || rtChr) ++ " " ++ encBool perm ++ " " ++ encStr text)
+    | Tok.str "call" :: args => do
+        -- the call with its arguments and meta resolved by the model; 12th argument = left-over order or `-`
+        let c ← callOf (args.take 11)
+        let order ← match args.drop 11 with
+          | [Tok.none] => pure none
+          | [o] => (strs? o).map some
+          | _ => none
+        match resolve c with
+        | .error e => pure ("err " ++ encErr e)
+        | .ok m =>
+          match writeCall c order with
+          | .error e => pure ("err " ++ encErr e)
+          | .ok ls =>
+            let text := render ls
+            let wf := wellFormed arityTable m
+            let co := charOk m
+            let rtChr := isOkEq (parse arityTable text) (canon m)
+            let perm := (order.getD (remainingNames m)).isPerm (remainingNames m)
+            pure ("ok " ++ encBool wf ++ " " ++ encBool co ++ " " ++ encBool (!(wf && co) || rtChr) ++ " "
+                  ++ encBool perm ++ " " ++ encStr text)
     | Tok.str "hist" :: rounds :: args => do
         let m ← molOf args
         let rs ← (← rounds.list?).mapM (fun r => do (← r.list?).mapM editOf)
@@ -100,6 +165,39 @@ def handle (_ : Unit) (toks : List Tok) : Unit × String :=
         match parse arityTable s with
         | .ok p => pure (encParsed p)
         | .error e => pure ("perr " ++ encPErr e)
+    | Tok.str "repo" :: args => do
+        -- the composed model: the repo's own reader (C13 model) on what the writer model writes
+        let m ← molOf (args.take 8)
+        let order ← match args.drop 8 with
+          | [] => pure (remainingNames m)
+          | [o] => strs? o
+          | _ => none
+        let ro := Repo.repoOk (Repo.itpTab.map (·.path)) m
+        match writeOrd m order with
+        | .error e => pure ("err " ++ encErr e)
+        | .ok ls =>
+          let rt := match Repo.readITPx Repo.itpIdx Repo.itpTab (Repo.textLines (render ls)) with
+            | some [(some n, (_, blk))] =>
+              n == m.moltype && (match Repo.viewBlock blk with
+                | some p => decide (p = canon m)
+                | none => false)
+              && blk.base.nodes.map (·.1) == (List.range m.atoms.length).map (fun (k : Nat) => toString k)
+            | _ => false
+          pure ("ok " ++ encBool ro ++ " " ++ encBool rt)
+    | [Tok.str "reporead", t] => do
+        -- the composed reader on an arbitrary text (compared with the real read_itp)
+        let s ← t.str?
+        match Repo.readITPx Repo.itpIdx Repo.itpTab (Repo.textLines s) with
+        | none => pure "error"
+        | some bs => pure ("ok " ++ encList (bs.map fun (k, (_, b)) =>
+            encList [encOptStr k, encOptStr b.nrexcl,
+              encList (b.base.nodes.map fun n => encList [encStr n.1, encList (n.2.map fun kv =>
+                encList [encStr kv.1, match kv.2 with | .str v => encStr v | _ => "-"])]),
+              encList (b.rows.map fun r => encList (r.map encStr)),
+              encList (b.base.inters.map fun it =>
+                encList [encStr it.sect,
+                  (match it.pmeta with | some (c, g) => encList [encStr c, encStr g] | none => "-"),
+                  encList (it.atoms.map encStr), encList (it.params.map encStr)])]))
     | Tok.str "canon" :: args => do
         let m ← molOf args
         pure (encParsed (canon m))
